@@ -16,4 +16,4 @@ Extraction "model.ml" BinInt.Z.add BinInt.Z.sub BinInt.Z.ltb BinInt.Z.leb BinInt
   Spec_Packet.response_auth_ok Spec_Packet.acct_request_auth_ok Spec_Packet.all_msgauth_ok Spec_Packet.has_msgauth Spec_Packet.first_is_msgauth Spec_Packet.attrs_of
   Crypt.pwdrecrypt Crypt.msmpprecrypt Spec_C03.spec_pwd_recrypt Spec_C03.spec_mppe_recrypt Spec_C03.rfc_dec Spec_C03.rfc_encrypt
   Choose.choosesrvconf Spec_C09.spec_choose Spec_C09.never_failing
-  Spec_C13.spec_decttl Spec_C13.same_shape Spec_C13.diff_count Spec_C13.first_of_type.
+  Spec_C13.spec_decttl Spec_C13.same_shape Spec_C13.diff_count Spec_C13.first_of_type Spec_C13.vsa Spec_C13.sub_ok Spec_C13.other_vendor.
